@@ -1,5 +1,6 @@
 import Sozu.Common.Proto
 import Sozu.Udp.Model
+import Sozu.Udp.Shell
 open Sozu Sozu.Proto Sozu.Udp
 
 /-! Line-protocol driver for the Udp area (property C19).
@@ -69,7 +70,10 @@ def Canon.incOf (c : Canon) (f : Nat) : String :=
   | some p => toString p.2
   | none => "?"
 
-def outStr (c : Canon) : Out → Canon × String
+/-- `sel`: for a `SendToBackend` in ghost mode, the flow whose upstream socket the
+    shell model (`Sozu.Udp.Shell`) writes the datagram to — that, not the manager's
+    ghost flow id, is what the black-box rig observes on the wire -/
+def outStr (c : Canon) (sel : Option Nat := none) : Out → Canon × String
   | .selectBackend f cl k =>
     let (seen', i) := keyIndex c.seen k
     ({ c with seen := seen', incs := (f, c.nextInc) :: c.incs.filter (·.1 ≠ f), nextInc := c.nextInc + 1,
@@ -77,7 +81,10 @@ def outStr (c : Canon) : Out → Canon × String
      s!"sel {f} {if cl.isEmpty then "-" else cl} k{i}")
   | .openUpstream f b => (c, s!"open {f} {addrStr b}")
   | .sendToBackend f dst p =>
-    (c, if c.ghost then s!"tob@{c.incOf f} {addrStr dst} {bytesToHex p}" else s!"tob {addrStr dst} {bytesToHex p}")
+    let via := match sel with
+      | some g => c.incOf g
+      | none => "?"
+    (c, if c.ghost then s!"tob@{via} {addrStr dst} {bytesToHex p}" else s!"tob {addrStr dst} {bytesToHex p}")
   | .sendToClient f dst p =>
     (c, if c.ghost then s!"toc@{c.incOf f} {addrStr dst} {bytesToHex p}" else s!"toc {addrStr dst} {bytesToHex p}")
   | .armTimer t => (c, s!"arm {t}")
@@ -85,10 +92,13 @@ def outStr (c : Canon) : Out → Canon × String
   | .closeFlow f => ({ c with incs := c.incs.filter (·.1 ≠ f) }, s!"close {f}")
   | .drop r => (c, s!"drop {reasonStr r}")
 
-def outsStr (c : Canon) (outs : List Out) : Canon × String :=
-  let (c', strs) := outs.foldl (fun (acc : Canon × List String) o =>
-    let (cn, str) := outStr acc.1 o
-    (cn, acc.2 ++ [str])) (c, [])
+def outsStr (c : Canon) (outs : List Out) (routes : List (Nat × Option Nat)) : Canon × String :=
+  let (c', strs, _) := outs.foldl (fun (acc : Canon × List String × List (Nat × Option Nat)) o =>
+    let (sel, rest) := match o, acc.2.2 with
+      | .sendToBackend _ _ _, r :: rest => (r.2, rest)
+      | _, rs => (none, rs)
+    let (cn, str) := outStr acc.1 sel o
+    (cn, acc.2.1 ++ [str], rest)) (c, [], routes)
   (c', if strs.isEmpty then "-" else ";".intercalate strs)
 
 def summary (s : State) : String :=
@@ -134,6 +144,11 @@ def parseOp (ws : List String) : Option Op :=
 structure DState where
   s : State
   c : Canon
+  /-- the shell model run alongside the manager (its routing decisions are printed in ghost mode) -/
+  sh : Shell
+  cur : Option Addr
+
+def listener0 : Addr := { v6 := false, ip := [0, 0, 0, 0], port := 0 }
 
 def emptyCfg : Cfg :=
   { cluster := "", withPort := false, responses := 0, requests := 0, frontTo := 0, backTo := 0,
@@ -166,16 +181,17 @@ def stepLine (st : DState) (line : String) : DState × List String :=
     match mf.toNat?, mr.toNat?, parseCfg rest with
     | some mf, some mr, some cfg =>
       let s := State.new cfg mf mr
-      ({ s, c := emptyCanon }, ["new | " ++ summary s])
+      ({ s, c := emptyCanon, sh := Shell.new listener0, cur := none }, ["new | " ++ summary s])
     | _, _, _ => (st, ["bad-op"])
   | ["dump"] => (st, [dump st.s])
   | ["ghost", "on"] => ({ st with c := { st.c with ghost := true } }, ["ghost"])
   | ws =>
     match (parseOp ws).orElse (fun _ => parseSugar st.c ws) with
     | some op =>
-      let (s', outs) := step st.s op
-      let (c', str) := outsStr st.c outs
-      ({ s := s', c := c' }, [str ++ " | " ++ summary s'])
+      let (y, outs, routes) := Sys.step true { s := st.s, sh := st.sh, cur := st.cur } op
+      let (c', str) := outsStr st.c outs routes
+      ({ s := y.s, c := c', sh := y.sh, cur := y.cur }, [str ++ " | " ++ summary y.s])
     | none => (st, ["bad-op"])
 
-def main : IO Unit := runDriver stepLine { s := State.new emptyCfg 0 0, c := emptyCanon }
+def main : IO Unit :=
+  runDriver stepLine { s := State.new emptyCfg 0 0, c := emptyCanon, sh := Shell.new listener0, cur := none }
